@@ -8,6 +8,15 @@ fn main() {
         std::process::exit(2);
     }
     let id: &'static str = Box::leak(args[1].clone().into_boxed_str());
+    if args[2] == "--replay" {
+        let verif_dir: std::path::PathBuf = std::env::var("VERIF_DIR").unwrap_or_else(|_| "/verif".to_string()).into();
+        install_panic_hook();
+        let Some(path) = args.get(3) else {
+            eprintln!("usage: vmon <property id> --replay <file>");
+            std::process::exit(2);
+        };
+        std::process::exit(vharness::core::replay(id, path, &verif_dir));
+    }
     let tier = match args[2].as_str() {
         "quick" => Tier::Quick,
         "thorough" => Tier::Thorough,
